@@ -295,6 +295,18 @@ func (br *BoundsRules) lowerBound(fc *FuncCtx, b *ssa.BasicBlock, v ssa.Value, d
 		if bi, ok := x.Call.Value.(*ssa.Builtin); ok && (bi.Name() == "cap" || bi.Name() == "copy") {
 			return 0, true
 		}
+		// a position reported by an Index* search of the standard library is -1 or a valid position: under "!= -1" it is >= 0
+		if sc := x.Call.StaticCallee(); sc != nil && sc.Pkg != nil && !br.A.P.InModule(sc) && strings.Contains(sc.Name(), "Index") {
+			if bt, ok := x.Type().Underlying().(*types.Basic); ok && bt.Kind() == types.Int {
+				if n := "eq(" + ap + ",c:-1)"; B.HasVar(n) && fc.Implied(b, B.Not(B.Var(n))) {
+					return 0, true
+				}
+				if n := "eq(c:-1," + ap + ")"; B.HasVar(n) && fc.Implied(b, B.Not(B.Var(n))) {
+					return 0, true
+				}
+				return -1, true
+			}
+		}
 	case *ssa.Extract:
 		if _, ok := x.Tuple.(*ssa.Next); ok && x.Index == 1 {
 			if _, isInt := x.Type().Underlying().(*types.Basic); isInt {
